@@ -44,6 +44,37 @@ def plan(tier, seed):
     return specs
 
 
+class EqAllMessage(dict):
+    """A message object whose == answers True to everything (a permissive value object)."""
+
+    def __eq__(self, other):
+        return True
+
+    def __ne__(self, other):
+        return False
+
+    __hash__ = None
+
+
+class EqRaiseMessage(dict):
+    """A message object whose == only works against mappings."""
+
+    def __eq__(self, other):
+        return dict(self) == dict(other.items())
+
+    __hash__ = None
+
+
+def make_message(p, s, cyc):
+    m = {"p": p, "seq": s, "cyc": cyc}
+    k = (p * 7 + s * 3 + cyc) % 5
+    if k == 1:
+        return EqAllMessage(m)
+    if k == 3:
+        return EqRaiseMessage(m)
+    return m
+
+
 def run_once(plan_, nprod, nmsg, cycles, concurrent_stop, failmask, second_writer=False, slow=False, nested=False):
     tape = Tape()
     calls = [0]
@@ -78,6 +109,8 @@ def run_once(plan_, nprod, nmsg, cycles, concurrent_stop, failmask, second_write
             writer({"p": "X", "seq": 0, "cyc": msg["cyc"]})
             tape.add("offer_ret", p="X", ms=0, cyc=msg["cyc"])
         if i in failmask:
+            if i % 2:
+                raise excs.DestFault("wrapped destination fails on call %d" % i, {"affected": dict(msg)}, [i])  # unhashable arguments
             raise excs.DestFault("wrapped destination fails on call %d" % i)
 
     other_got = []
@@ -134,7 +167,7 @@ def run_once(plan_, nprod, nmsg, cycles, concurrent_stop, failmask, second_write
                     if other is not None:
                         other({"p": p, "seq": s, "cyc": cyc, "w": 1})  # a second, independent writer is in use at the same time
                     tape.add("offer_call", p=p, ms=s, cyc=cyc)
-                    writer({"p": p, "seq": s, "cyc": cyc})
+                    writer(make_message(p, s, cyc))
                     tape.add("offer_ret", p=p, ms=s, cyc=cyc)
                 state["done"][cyc] += 1
                 sched.notify()
